@@ -482,3 +482,28 @@ def replay(pid, path, profile="release"):
         return 1
     log("replay: case %s is accepted on the current tree" % obj.get("key"))
     return 0
+
+
+def write_cfg(path, consts=None, spec="Spec", invariants=(), properties=(), view=None,
+              action_constraints=(), constraints=(), deadlock=False, extra=""):
+    with open(path, "w") as f:
+        if consts:
+            f.write("CONSTANTS\n")
+            for k, v in consts.items():
+                if isinstance(v, bool):
+                    v = "TRUE" if v else "FALSE"
+                f.write("  %s = %s\n" % (k, v))
+        f.write("SPECIFICATION %s\n" % spec)
+        if view:
+            f.write("VIEW %s\n" % view)
+        for i in invariants:
+            f.write("INVARIANT %s\n" % i)
+        for p in properties:
+            f.write("PROPERTY %s\n" % p)
+        for a in action_constraints:
+            f.write("ACTION_CONSTRAINT %s\n" % a)
+        for c in constraints:
+            f.write("CONSTRAINT %s\n" % c)
+        f.write("CHECK_DEADLOCK %s\n" % ("TRUE" if deadlock else "FALSE"))
+        f.write(extra)
+    return path
